@@ -11,7 +11,7 @@ SPEC = {'level': 'exploration',
                 floors={'malformed:unsorted': 0.05, 'malformed:duplicates': 0.04, 'malformed:conflict': 0.02, 'malformed:not-child-with-parents': 0.15,
                         'malformed:count': 0.01, 'malformed:weight': 0.01, 'well-formed:multi': 0.5, 'evaluated:all-entered': 0.3, 'evaluated:partial': 0.1,
                         'result:INVALID': 0.3, 'result:MEMPOOL_ENTRY': 0.03, 'result:DIFFERENT_WITNESS': 0.01, 'evaluated:cpfp-sponsored-parent': 0.05,
-                        'count=25': 0.005, 'weight:just-within': 0.005},
+                        'count=25': 0.005, 'weight:just-within': 0.005, 'shape:later-parent-replaces-ancestor': 0.2, 'parent-evicted-by-later-parent-rbf': 0.04},
                 rule='2-6 generated packages per case against a generated pool; non-trivial = a well-formed package of >= 3 txs evaluated with a member entering the pool and a '
                      'malformed package in the same case')]}
 
